@@ -1,5 +1,6 @@
 // c16 — the C16 check drives the BUILT commands (obigrep, obiannotate, obidistribute) from
-// tools/props/c16.py; this sub-command only reports that the harness was built from the tree.
+// tools/props/c16.py; this sub-command reports that the harness was built from the tree (ping) and runs
+// the annotation pipeline in process on a long synthetic input (kind "pipeline", see c16stress.go).
 package main
 
 import "bufio"
@@ -7,8 +8,17 @@ import "bufio"
 func init() {
 	register("c16", func(in *bufio.Reader, out *bufio.Writer) error {
 		type probe struct {
-			Ping string `json:"ping"`
+			Ping  string   `json:"ping"`
+			Kind  string   `json:"kind"`
+			Argv  []string `json:"argv"`
+			N     int      `json:"n"`
+			Batch int      `json:"batch"`
 		}
-		return eachLine(in, out, func(c probe) any { return map[string]string{"kind": "pong", "ping": c.Ping} })
+		return eachLine(in, out, func(c probe) any {
+			if c.Kind == "pipeline" {
+				return c16Pipeline(c.Argv, c.N, c.Batch)
+			}
+			return map[string]string{"kind": "pong", "ping": c.Ping}
+		})
 	})
 }
